@@ -41,7 +41,8 @@ pub fn run_case(ctx: &mut CaseCtx) -> CaseResult {
         return dup_case(ctx);
     }
     let rng = &mut ctx.rng;
-    let m = spec::gen_mspec(rng, false, false);
+    // (a third of the specifications carries a text filter: it concerns the default channel only)
+    let m = spec::gen_mspec(rng, true, false);
     let model = m.with_builder_default();
     let file_ceiling = *rng.pick(&spec::FILTERS);
     let syslog_ceiling = *rng.pick(&spec::FILTERS);
@@ -171,7 +172,12 @@ pub fn run_case(ctx: &mut CaseCtx) -> CaseResult {
     for i in 0..n {
         let lvl = *rng.pick(&LEVELS);
         let module = rng.pick(&modules).clone();
-        let msg = flw::msg_id(ctx.case, 0, seq, rng.usize(12));
+        let mut msg = flw::msg_id(ctx.case, 0, seq, rng.usize(12));
+        if let Some(t) = &model.text {
+            // messages that the text filter accepts and messages that it refuses
+            let samples = t.messages();
+            msg = format!("{msg} {}", rng.pick(&samples));
+        }
         seq += 1;
         let brace = rng.chance(3, 4);
         let list = if brace { gen_list(rng) } else { Vec::new() };
@@ -234,9 +240,9 @@ pub fn run_case(ctx: &mut CaseCtx) -> CaseResult {
         let mut delivered_somewhere = false;
         let want_default = gate
             && if brace {
-                named("_Default") && model.enabled(lvl, &module)
+                named("_Default") && model.delivers(lvl, &module, &msg)
             } else {
-                model.enabled(lvl, &target)
+                model.delivers(lvl, &target, &msg)
             };
         let got_d = rd.take();
         if !got_d.is_empty() {
@@ -281,7 +287,7 @@ pub fn run_case(ctx: &mut CaseCtx) -> CaseResult {
             expected_file.push(msg.clone());
         }
         if with_syslog && named("S") && gate && lvl <= syslog_ceiling {
-            expected_syslog.push(msg.clone());
+            expected_syslog.push(msg.split(' ').next().unwrap_or("").to_string());
         }
         // unknown names are reported, and only they
         let unknown: Vec<&str> = list
